@@ -32,6 +32,10 @@ type part struct {
 	K  string  `json:"k"`            // lit sgl dbl exp at star ulist
 	V  []int   `json:"v,omitempty"`  // lit, sgl, exp: the value (code points)
 	Vs [][]int `json:"vs,omitempty"` // dbl: values of the inner parts; at/star/ulist: the elements
+
+	ck    string   // for classification: "split" (unquoted expansion result), "at", "ulist", "" (literal/quoted)
+	cs    string   // split: the value
+	celem []string // at, ulist: the elements
 }
 
 type kase struct {
@@ -52,6 +56,7 @@ type kase struct {
 	Bash     string   `json:"bash"`
 	Fails    []string `json:"fails"`
 	Class    string   `json:"class"`
+	NoOracle string   `json:"no_oracle"` // why bash is not consulted for this case ("" = it is)
 
 	ifs    string
 	params []string
@@ -174,7 +179,7 @@ func (g *gen) dbl() (string, part) {
 func (g *gen) exp() (string, part) {
 	v := genValue(g.r, g.k.ifs)
 	name := g.newVar(v)
-	return "${" + name + "}", part{K: "exp", V: hxsplit.Runes(v)}
+	return "${" + name + "}", part{K: "exp", V: hxsplit.Runes(v), ck: "split", cs: v}
 }
 
 func (g *gen) word() {
@@ -197,11 +202,11 @@ func (g *gen) word() {
 		case c < 15:
 			s, p = g.exp()
 		case c < 16:
-			s, p = hx.Pick(r, []string{`"$@"`, `"${@}"`}), part{K: "at", Vs: hxsplit.RunesList(k.params)}
+			s, p = hx.Pick(r, []string{`"$@"`, `"${@}"`}), part{K: "at", Vs: hxsplit.RunesList(k.params), ck: "at", celem: k.params}
 		case c < 17:
 			s, p = hx.Pick(r, []string{`"$*"`, `"${*}"`}), part{K: "star", Vs: hxsplit.RunesList(k.params)}
 		case c < 19:
-			s, p = hx.Pick(r, []string{`$@`, `$*`, `${@}`, `${*}`}), part{K: "ulist", Vs: hxsplit.RunesList(k.params)}
+			s, p = hx.Pick(r, []string{`$@`, `$*`, `${@}`, `${*}`}), part{K: "ulist", Vs: hxsplit.RunesList(k.params), ck: "ulist", celem: k.params}
 		default:
 			if !g.wild {
 				s, p = g.exp()
@@ -212,17 +217,24 @@ func (g *gen) word() {
 			case 0: // command substitution (trailing newlines dropped)
 				v := genValue(r, k.ifs)
 				name := g.newVar(v)
-				s, p = `$(printf '%s' "$`+name+`")`, part{K: "cmdsubst"}
+				s, p = `$(printf '%s' "$`+name+`")`, part{K: "cmdsubst", ck: "split", cs: strings.TrimRight(v, "\n")}
 			case 1:
 				v := genValue(r, k.ifs)
 				name := g.newVar(v)
-				s, p = "`printf '%s' \"$"+name+"\"`", part{K: "cmdsubst"}
+				s, p = "`printf '%s' \"$"+name+"\"`", part{K: "cmdsubst", ck: "split", cs: strings.TrimRight(v, "\n")}
 			case 2: // invalid UTF-8 in a value
 				v := genValue(r, k.ifs) + hx.Pick(r, []string{"\xff", "\xc3", "\xe2\x82", "\x80"}) + genValue(r, k.ifs)
 				name := g.newVar(v)
-				s, p = "$"+name, part{K: "bytes"}
+				s, p = "$"+name, part{K: "bytes", ck: "split", cs: v}
 			default: // arrays
-				s, p = hx.Pick(r, []string{`"${arr[@]}"`, `"${arr[*]}"`, `${arr[@]}`, `${arr[*]}`}), part{K: "array"}
+				s = hx.Pick(r, []string{`"${arr[@]}"`, `"${arr[*]}"`, `${arr[@]}`, `${arr[*]}`})
+				p = part{K: "array", celem: k.params}
+				switch {
+				case !strings.HasPrefix(s, `"`):
+					p.ck = "ulist"
+				case strings.Contains(s, "@"):
+					p.ck = "at"
+				}
 			}
 		}
 		if p.K == "lit" && i == 0 && strings.HasPrefix(s, "~") {
@@ -354,9 +366,167 @@ func (k *kase) runExpand() {
 	}
 }
 
-// class of a failing case: narrow predicates on the input naming the mechanism
+// bashUnreliable: configurations on which bash 5.2 itself misbehaves (it handles
+// multi-byte IFS characters bytewise in places), so that it is no oracle:
+//   - IFS holds a multi-byte character and IFS whitespace (after whitespace bash
+//     skips one byte of the multi-byte delimiter and sees an extra empty field),
+//   - a multi-byte IFS character occurs in quoted or literal text (bash splits it),
+//   - invalid UTF-8 or U+FFFD in IFS.
+func (k *kase) bashUnreliable() string {
+	if !isModelledIFS(k.ifs) {
+		return "invalid_utf8_ifs"
+	}
+	multi := ""
+	for _, r := range k.ifs {
+		if r >= 0x80 {
+			multi += string(r)
+		}
+	}
+	if multi == "" {
+		return ""
+	}
+	if strings.ContainsAny(k.ifs, " \t\n") {
+		return "multibyte_ifs_with_whitespace"
+	}
+	if k.Stream != "gen" {
+		return "multibyte_ifs_unmodelled_word"
+	}
+	has := func(v []int) bool {
+		for _, c := range v {
+			if c >= 0x80 && strings.ContainsRune(multi, rune(c)) {
+				return true
+			}
+		}
+		return false
+	}
+	for _, p := range k.Parts {
+		switch p.K {
+		case "lit", "sgl":
+			if has(p.V) {
+				return "multibyte_ifs_in_quoted_text"
+			}
+		case "dbl", "at", "star":
+			if p.K == "star" && len(p.Vs) > 1 && []rune(k.ifs)[0] >= 0x80 {
+				return "multibyte_ifs_in_quoted_text" // "$*" joins with it
+			}
+			for _, v := range p.Vs {
+				if has(v) {
+					return "multibyte_ifs_in_quoted_text"
+				}
+			}
+		}
+	}
+	return ""
+}
+
+// leadingWsThenNonWs: the word's expansion begins (before any literal or quoted
+// text) with IFS whitespace followed by a non-whitespace IFS character, all coming
+// from unquoted expansions.
+func (k *kase) leadingWsThenNonWs() bool {
+	isWs := func(c rune) bool {
+		return (c == ' ' || c == '\t' || c == '\n') && strings.ContainsRune(k.ifs, c)
+	}
+	sawWs := false
+	// returns 0 = continue, 1 = yes, 2 = no
+	feed := func(v string) int {
+		for _, c := range v {
+			switch {
+			case isWs(c):
+				sawWs = true
+			case c != utf8.RuneError && strings.ContainsRune(k.ifs, c):
+				if sawWs {
+					return 1
+				}
+				return 2
+			default:
+				return 2
+			}
+		}
+		return 0
+	}
+	for _, p := range k.Parts {
+		switch p.ck {
+		case "split":
+			if r := feed(p.cs); r != 0 {
+				return r == 1
+			}
+		case "at":
+			if len(p.celem) > 0 {
+				return false
+			}
+		case "ulist":
+			if k.ifs == "" {
+				for _, v := range p.celem {
+					if len(v) > 0 {
+						return false
+					}
+				}
+				continue
+			}
+			sep := string([]rune(k.ifs)[0])
+			for i, v := range p.celem {
+				if i > 0 {
+					if r := feed(sep); r != 0 {
+						return r == 1
+					}
+				}
+				if r := feed(v); r != 0 {
+					return r == 1
+				}
+			}
+		default:
+			return false
+		}
+	}
+	return false
+}
+
+func (k *kase) hasListParam() bool {
+	for _, at := range []string{"$@", "$*", "${@}", "${*}", "${arr[@]}", "${arr[*]}"} {
+		if strings.Contains(k.Src, at) {
+			return true
+		}
+	}
+	return false
+}
+
+// oneMoreLeadingEmpty: got is want with one more empty field in front
+func oneMoreLeadingEmpty(got, want string) bool {
+	var ng, nw int
+	var bg, bw string
+	if _, err := fmt.Sscanf(got, "%d", &ng); err != nil {
+		return false
+	}
+	if _, err := fmt.Sscanf(want, "%d", &nw); err != nil {
+		return false
+	}
+	bg = got[strings.IndexByte(got, '<'):]
+	bw = want[strings.IndexByte(want, '<'):]
+	if nw == 0 {
+		bw = ""
+	}
+	return ng == nw+1 && bg == "<>"+bw
+}
+
+// class of a failing case: narrow predicates on the input (and the failure
+// signature) naming the mechanism
 func (k *kase) classify() string {
-	return classifySrc(k.Src)
+	if c := classifySrc(k.Src); c != "" {
+		return c
+	}
+	// bash splits a word that mentions $@ or $* without first skipping leading IFS
+	// whitespace, so that " -x" with IFS=" -" loses its leading empty field there
+	// (dash and POSIX, like the Go code, give the empty field)
+	if k.Stream == "pinned" {
+		if k.hasListParam() && k.ifs == " -" && oneMoreLeadingEmpty(k.Interp, k.Bash) {
+			return "list_param_leading_ifs_whitespace_then_nonwhitespace"
+		}
+		return ""
+	}
+	if k.hasListParam() && k.leadingWsThenNonWs() && oneMoreLeadingEmpty(k.Interp, k.Bash) {
+		return "list_param_leading_ifs_whitespace_then_nonwhitespace"
+	}
+	return ""
 }
 
 func classifySrc(src string) string {
@@ -426,6 +596,9 @@ var pinned = []struct {
 	{true, " \t\n", []string{"", ""}, nil, "a\"$@\"b"},
 	{true, " \t\n", nil, nil, "\"$@\""},
 	{true, " \t\n", nil, nil, "\"$@\"\"\""},
+	// known finding: bash drops the leading empty field of " -x" in a word that mentions $@ or $*
+	{true, " -", []string{"  -11"}, nil, "$@"},
+	{true, " -", nil, []string{"  -11"}, "\"$@\"$v0"},
 	// known finding: "$@" next to other parts inside double quotes
 	{true, " \t\n", []string{"1", "2"}, nil, "\"a$@b\""},
 	{true, " \t\n", []string{"1", "2"}, nil, "\"a${arr[@]}\""},
@@ -472,11 +645,20 @@ func main() {
 		k.Bash = bash[i]
 		k.runExpand()
 		k.Interp = hxsplit.RunInterp(dir, prelude+"\n"+k.Script, 5*time.Second)
-		if k.Interp != k.Bash {
-			k.Fails = append(k.Fails, "interp_fields_differ_from_bash")
+		k.NoOracle = k.bashUnreliable()
+		cmdsubst := strings.Contains(k.Src, "$(") || strings.Contains(k.Src, "`")
+		if k.NoOracle == "" {
+			if k.Interp != k.Bash {
+				k.Fails = append(k.Fails, "interp_fields_differ_from_bash")
+			}
+			if k.FieldsS != k.Bash && !cmdsubst {
+				k.Fails = append(k.Fails, "expand_fields_differ_from_bash")
+			}
+		} else if k.Interp != k.FieldsS && !cmdsubst {
+			k.Fails = append(k.Fails, "interp_and_expand_fields_differ")
 		}
-		if k.FieldsS != k.Bash && !strings.Contains(k.Src, "$(") && !strings.Contains(k.Src, "`") {
-			k.Fails = append(k.Fails, "expand_fields_differ_from_bash")
+		if strings.HasPrefix(k.Interp, "PANIC") || k.Interp == "HANG" || k.Fields == "P" {
+			k.Fails = append(k.Fails, "field_splitting_panics_or_hangs")
 		}
 		if len(k.Fails) > 0 {
 			k.Class = k.classify()
